@@ -103,6 +103,9 @@ class CalendarRule(PluginResultIterator):
 
         freq = self._normalize_frequency(freq)
 
+        if not interval:  # the recurrence engine never advances with an interval of 0
+            raise exc.DataGenValueError("`interval` should not be zero or empty")
+
         if byweekday:
             byweekday_normalized = self._normalize_weekday(byweekday)
         else:
